@@ -106,6 +106,6 @@ DecoyRefuted ==
 ListingRefuted ==
     LET bad == [status |-> 200, ct |-> "text/html;charset=utf-8", enc |-> "none", cache |-> "none",
                 body |-> [kind |-> "nonfile", root |-> "", rel |-> <<>>]] IN
-    (req.method = "GET" /\ (OwnsHost(req.host) \/ Under(req.host, req.path))) =>
+    (req.method = "GET" /\ (OwnsHost(req.host) \/ Under(req.host, Norm(req.path)))) =>
         "C19.OnlyFiles" \in Verdict(req, bad, LAMBDA r, f : IdealExists(world, r, f))
 =============================================================================
